@@ -34,6 +34,10 @@ var hashValues = [][3]string{
 	{`{}`, "{ }", `{"x":null}`},
 	{`[1,"1",true,null,{"1":1},[1]]`, `[1.0,"1",true,null,{"1":1e0},[10e-1]]`, `[1,"1",false,null,{"1":1},[1]]`},
 	{`{"":"empty name","a b":"space","€":"euro","\r":"cr"}`, `{"\r":"cr","€":"euro","a b":"space","":"empty name"}`, `{"":"empty name","a b":"space","€":"Euro","\r":"cr"}`},
+	// control characters that have no short escape, in strings and names that hold nothing else to escape
+	{`{"c":"a\u0001b","\u001b":"\u0000","e":"\u000e\u001f","n":[1e-6,1e21,1e-7,999999999999999900000,295147905179352830000]}`,
+		`{"n":[0.000001,1000000000000000000000,0.0000001,999999999999999868928,295147905179352825856],"e":"\u000E\u001F","\u001B":"\u0000","c":"a\u0001b"}`,
+		`{"c":"a\u0002b","\u001b":"\u0000","e":"\u000e\u001f","n":[1e-6,1e21,1e-7,999999999999999900000,295147905179352830000]}`},
 }
 
 func mhCode(c int) uint {
